@@ -7,6 +7,7 @@ import (
 
 	"verif/harness/keys"
 	"verif/harness/pol"
+	"verif/harness/sel"
 	"verif/harness/val"
 )
 
@@ -20,6 +21,7 @@ type GenCfg struct {
 	SmallNonce  bool
 	NoNative    bool
 	NoTopNull   bool // no null as a top-level args/meta value (known finding C07/toplevel-null-value)
+	NoStretch   bool // never enlarge a dimension (see Stretch)
 	WideInts    bool // args / meta values may hold integers of the whole int64 range (and beyond, as uint64 nodes);
 	// whether a constructor takes them is the constructor's decision, not the generator's
 }
@@ -173,8 +175,165 @@ func GenInv(t *rapid.T, cfg GenCfg) Inv {
 	return iv
 }
 
+// stretchSizes: every size from 1 to 70, and the neighbourhoods of the powers of two up to 1024 - the places where
+// a limit introduced at one site and forgotten (or off by one) at another shows.
+func stretchSize(t *rapid.T) int {
+	if rapid.IntRange(0, 3).Draw(t, "stretch_far") == 2 {
+		return rapid.SampledFrom([]int{100, 127, 128, 129, 255, 256, 257, 511, 512, 513, 1000, 1023, 1024, 1025}).Draw(t, "stretch_big")
+	}
+	return rapid.IntRange(1, 70).Draw(t, "stretch_n")
+}
+
+func nested(depth int, leaf val.V) val.V {
+	v := leaf
+	for i := 0; i < depth; i++ {
+		if (i+depth)%2 == 0 {
+			v = val.List(v)
+		} else {
+			v = val.Map(val.E("n", v))
+		}
+	}
+	return v
+}
+
+// Stretch makes ONE dimension of the token unusually large (still legal): number of arguments / metadata entries
+// / proofs, nonce length, command segments, policy statements, policy nesting, selector segments, value nesting,
+// list length, string length.
+func Stretch(t *rapid.T, tk *Tok) {
+	n := stretchSize(t)
+	many := func(prefix string) []KVal {
+		out := make([]KVal, 0, n)
+		for i := 0; i < n; i++ {
+			out = append(out, KVal{K: fmt.Sprintf("%s%04d", prefix, i), V: val.Int(int64(i % 9))})
+		}
+		return out
+	}
+	longCmd := func() string {
+		var b []byte
+		for i := 0; i < n; i++ {
+			b = append(b, fmt.Sprintf("/s%d", i%7)...)
+		}
+		return string(b)
+	}
+	dims := []string{"meta-count", "nonce-len", "cmd-segs", "value-depth", "list-len", "str-len"}
+	if tk.Inv != nil {
+		dims = append(dims, "args-count", "prf-count", "args-depth")
+	} else {
+		dims = append(dims, "pol-stmts", "pol-depth", "sel-segs", "pol-and-width")
+	}
+	one := val.Int(1)
+	switch rapid.SampledFrom(dims).Draw(t, "stretch_dim") {
+	case "meta-count":
+		if tk.Inv != nil {
+			tk.Inv.Meta = many("m")
+		} else {
+			tk.Dlg.Meta = many("m")
+		}
+	case "nonce-len":
+		nn := make([]byte, n+11)
+		for i := range nn {
+			nn[i] = byte(i*7 + 1)
+		}
+		if tk.Inv != nil {
+			tk.Inv.Nonce, tk.Inv.EmptyNonce = nn, false
+		} else {
+			tk.Dlg.Nonce = nn
+		}
+	case "cmd-segs":
+		if tk.Inv != nil {
+			tk.Inv.Cmd = longCmd()
+		} else {
+			tk.Dlg.Cmd = longCmd()
+		}
+	case "value-depth":
+		kv := KVal{K: "deep", V: nested(n, val.Str("leaf"))}
+		if tk.Inv != nil {
+			tk.Inv.Meta = append(tk.Inv.Meta, kv)
+		} else {
+			tk.Dlg.Meta = append(tk.Dlg.Meta, kv)
+		}
+	case "list-len":
+		l := val.V{K: "list"}
+		for i := 0; i < n; i++ {
+			l.L = append(l.L, val.Int(int64(i%5)))
+		}
+		kv := KVal{K: "longlist", V: l}
+		if tk.Inv != nil {
+			tk.Inv.Meta = append(tk.Inv.Meta, kv)
+		} else {
+			tk.Dlg.Meta = append(tk.Dlg.Meta, kv)
+		}
+	case "str-len":
+		b := make([]byte, n*16)
+		for i := range b {
+			b[i] = 'a' + byte(i%26)
+		}
+		kv := KVal{K: "longstr", V: val.Str(string(b))}
+		if tk.Inv != nil {
+			tk.Inv.Meta = append(tk.Inv.Meta, kv)
+		} else {
+			tk.Dlg.Meta = append(tk.Dlg.Meta, kv)
+		}
+	case "args-count":
+		tk.Inv.Args = many("a")
+	case "args-depth":
+		tk.Inv.Args = append(tk.Inv.Args, KVal{K: "deeparg", V: nested(n, val.Int(3))})
+	case "prf-count":
+		tk.Inv.Prf = nil
+		for i := 0; i < n; i++ {
+			tk.Inv.Prf = append(tk.Inv.Prf, []byte{byte(i), byte(i >> 8), 0})
+		}
+	case "pol-stmts":
+		tk.Dlg.Pol = nil
+		for i := 0; i < n; i++ {
+			tk.Dlg.Pol = append(tk.Dlg.Pol, pol.Stmt{Op: "==", Sel: sel.Sel{{Kind: "field", Name: fmt.Sprintf("f%d", i)}}, Lit: &one})
+		}
+	case "pol-depth":
+		st := pol.Stmt{Op: "==", Sel: sel.Sel{{Kind: "field", Name: "a"}}, Lit: &one}
+		for i := 0; i < n; i++ {
+			switch i % 3 {
+			case 0:
+				st = pol.Stmt{Op: "not", Sub: []pol.Stmt{st}}
+			case 1:
+				st = pol.Stmt{Op: "and", Sub: []pol.Stmt{st}}
+			default:
+				st = pol.Stmt{Op: "any", Sel: sel.Sel{{Kind: "field", Name: "l"}}, Sub: []pol.Stmt{st}}
+			}
+		}
+		tk.Dlg.Pol = pol.Policy{st}
+	case "pol-and-width":
+		st := pol.Stmt{Op: "or"}
+		for i := 0; i < n; i++ {
+			lit := val.Int(int64(i))
+			st.Sub = append(st.Sub, pol.Stmt{Op: "==", Sel: sel.Sel{{Kind: "field", Name: "a"}}, Lit: &lit})
+		}
+		tk.Dlg.Pol = pol.Policy{st}
+	case "sel-segs":
+		var sl sel.Sel
+		for i := 0; i < n; i++ {
+			switch i % 3 {
+			case 0:
+				sl = append(sl, sel.Seg{Kind: "field", Name: "a"})
+			case 1:
+				sl = append(sl, sel.Seg{Kind: "index", Idx: int64(i % 4)})
+			default:
+				sl = append(sl, sel.Seg{Kind: "qfield", Name: "k k", Opt: true})
+			}
+		}
+		tk.Dlg.Pol = pol.Policy{{Op: "==", Sel: sl, Lit: &one}}
+	}
+}
+
 // Gen draws a token descriptor of either type.
 func Gen(t *rapid.T, cfg GenCfg) Tok {
+	tk := gen(t, cfg)
+	if !cfg.NoStretch && rapid.IntRange(0, 9).Draw(t, "stretch") == 4 {
+		Stretch(t, &tk)
+	}
+	return tk
+}
+
+func gen(t *rapid.T, cfg GenCfg) Tok {
 	kind := cfg.Kinds
 	if kind == "" {
 		kind = rapid.SampledFrom([]string{"dlg", "inv"}).Draw(t, "kind")
